@@ -206,7 +206,7 @@ func checkC23(p *Prog, r *Report) {
 	{
 		pushes := 0
 		seeded := false
-		eachInstr(findRev, false, func(_ *ssa.Function, i ssa.Instruction) {
+		eachInstrS(findRev, func(_ *ssa.Function, i ssa.Instruction) {
 			c, ok := i.(*ssa.Call)
 			if !ok || !strings.HasSuffix(calleeName(&c.Call), "openSet).Push") {
 				return
@@ -228,9 +228,10 @@ func checkC23(p *Prog, r *Report) {
 		r.check(pushes >= 2 && seeded, rule, "all targets of the package whose parent is the queried target are seeded", p.pos(findRev.Pos()), fnName(findRev), "a Push under child.Parent(graph) == target inside a range over the package's AllTargets()", "only some of the queried rule's hidden sub-targets are seeded (e.g. its direct dependencies): nested or provide-only sub-targets are never reached, so everything that depends on them disappears from `revdeps`")
 		// seeds have depth 0
 		zero := true
-		eachInstr(findRev, false, func(_ *ssa.Function, i ssa.Instruction) {
+		worker := p.Fn("query", "revdeps.findRevdeps") // the expansion loop exists only for FindRevdeps too; its depths are not seeds
+		eachInstrS(findRev, func(in *ssa.Function, i ssa.Instruction) {
 			st, ok := i.(*ssa.Store)
-			if !ok || fieldKey(st.Addr) != "query.node.depth" {
+			if !ok || in == worker || fieldKey(st.Addr) != "query.node.depth" {
 				return
 			}
 			if v, isC := constInt(st.Val); !isC || v != 0 {
